@@ -50,7 +50,8 @@ RULE = ('One offender transport sends generated sequences of hostile frames '
         'allocation proportional to a declared count of 10**7 or more does '
         'not fit); finally each bystander completes a fixed exchange. '
         'Non-trivial: the sequence contains a frame that decodes to an '
-        'allowed packet type on a namespace shared with a bystander.')
+        'allowed packet type on a namespace shared with a bystander.'
+        ' What engine.io hands over after JSON-sniffing a text message is judged too (anything but str / bytes / a plain int is not a packet); a third of the msgpack histories start with a CONNECT for the namespace "*" and events there that name a bystander.')
 ASSUMPTIONS = [
     '"cannot be decoded" means the implementation\'s decoder raised, or the '
     'payload of an EVENT / BINARY_EVENT is not a non-empty array',
